@@ -214,6 +214,21 @@ def run(tape, scenario):
             st._ee_command(struct.pack("<HI", 0x100, 0x20 + 4 * tape.draw("c17/leftover-addr", 8)))
             st.ee_delay = keep
             world.count("c17/eeprom-interface-busy-with-a-leftover-command")
+        if tape.chance("c17/bring-up-given-up-and-repeated", 15):
+            # the bring-up is given up once or twice (its caller timed out) at any moment,
+            # also in the middle of an EEPROM command, and then repeated with the same
+            # Terminal object
+            for attempt in range(1 + tape.draw("c17/given-up-twice", 2)):
+                first = asyncio.ensure_future(t.initialize(relative=-k))
+                await asyncio.sleep([50e-6, 200e-6, 600e-6, 1.5e-3, 4e-3][
+                    tape.draw("c17/given-up-after", 5)])
+                if not first.done():
+                    first.cancel()
+                    world.count("c17/bring-up-given-up")
+                try:
+                    await first
+                except (asyncio.CancelledError, Exception):
+                    pass
         await t.initialize(relative=-k)
         r = {}
         if scenario == "ebpf-terminal":
@@ -233,6 +248,10 @@ def run(tape, scenario):
             cats2 = [(typ, data) for typ, data in sp["cats"].items() if typ != gone]
             ident2 = sp["ident"][:3] + ((sp["ident"][3] + 1) & 0xffffffff,)
             sp["st"].eeprom = sii.build(*ident2, categories=cats2)
+            if tape.chance("c17/other-read-width-after-change", 50):
+                # (the terminal was exchanged for one whose interface reads the other width)
+                sp["st"].eeprom_8byte = not sp["st"].eeprom_8byte
+                world.count("c17/eeprom-read-width-changed-between-reads")
             await t.read_eeprom()
             r["reread"] = (ident2, dict(cats2), {typ: bytes(v) for typ, v in t.eeprom.items()},
                            (t.vendorId, t.productCode, t.revisionNo, t.serialNo))
